@@ -583,7 +583,112 @@ def load_histories(ctx, n):
             ctx.event("load_histories_checked")
 
 
+def failed_evaluations(ctx):
+    """A parse that fails *inside* the evaluation of a length (a division by zero, a negative shift, a name that is not
+    bound yet) after operands were already taken leaves nothing behind: the same bytes parse afterwards as they did
+    before and as on a fresh cstruct object; a length over a constant defined later in the text works like the other order."""
+    texts = [
+        ("struct s { uint8 base; uint8 div; uint8 data[base + 8 / div]; uint8 t; };", [bytes([1, 4, 9, 8, 7, 6]), bytes([1, 0, 9, 8, 7]), bytes([2, 8, 5, 5, 5, 6])]),
+        ("struct s { uint8 n; int8 sh; uint8 data[2 + (n << sh) - n]; uint8 t; };", [bytes([1, 1, 9, 8, 7, 6]), bytes([1, 0xFF, 9, 8, 7]), bytes([1, 0, 5, 5, 6])]),
+        ("struct s { uint8 a; uint8 b; uint16 data[1 + a % b][1 + a / b]; uint8 t; };", [bytes([4, 2]) + bytes(range(1, 20)), bytes([4, 0]) + bytes(20), bytes([5, 3]) + bytes(range(30, 60))]),
+    ]
+    for text, inputs in texts:
+        for compiled in (True, False):
+            ctx.evaluation(("failed-evaluations", text, compiled))
+            ctx.cell("failed-length-evaluations")
+            det = {"text": text, "compiled": compiled, "workload": "failed-evaluations"}
+
+            def facts(cs, data):
+                try:
+                    o = cs.s(data)
+                    return ("ok", lib.stable_repr(o), o.dumps())
+                except Exception as e:  # noqa: BLE001
+                    return ("err", type(e).__name__)
+            try:
+                fresh = [facts(lib.load(text, "<", False, compiled), d) for d in inputs]
+                cs = lib.load(text, "<", False, compiled)
+                hist = []
+                for rnd in range(3):
+                    for k in (0, 1, 2, 1, 0):
+                        r = facts(cs, inputs[k])
+                        hist.append((k, r[0]))
+                        if r != fresh[k]:
+                            ctx.violation("history", "parse-result-depends-on-history",
+                                          dict(det, history=hist, got=repr(r)[:300], want=repr(fresh[k])[:300]))
+                            raise StopIteration
+                if fresh[0][0] != "ok" or fresh[1][0] != "err":
+                    ctx.violation("history", "failed-evaluation-workload-does-not-fail-where-it-should", dict(det, fresh=repr(fresh)[:300]))
+                else:
+                    ctx.event("failed_evaluation_histories")
+            except StopIteration:
+                pass
+    # a constant that is defined after the structure whose length names it (next to an operand that is taken first)
+    for compiled in (True, False):
+        early = "#define COUNT 2\nstruct s { uint8 h; uint8 data[1 + COUNT]; uint8 t; };"
+        late = "struct s { uint8 h; uint8 data[1 + COUNT]; uint8 t; };\n#define COUNT 2\n"
+        ctx.evaluation(("late-constant", compiled))
+        data = bytes([7, 1, 2, 3, 9, 9])
+        try:
+            a, b = lib.load(early, "<", False, compiled), lib.load(late, "<", False, compiled)
+            ra = [(lib.stable_repr(a.s(data)), a.s(data).dumps()) for _ in range(2)]
+            rb = [(lib.stable_repr(b.s(data)), b.s(data).dumps()) for _ in range(2)]
+            if ra != rb:
+                ctx.violation("history", "parse-result-depends-on-history",
+                              {"text": late, "compiled": compiled, "workload": "failed-evaluations", "got": repr(rb)[:300], "want": repr(ra)[:300]})
+            else:
+                ctx.event("late_constant_checked")
+        except Exception as e:  # noqa: BLE001
+            ctx.violation("history", f"late-constant-raises:{type(e).__name__}", {"text": late, "compiled": compiled,
+                                                                                 "workload": "failed-evaluations", "error": lib.exc_sig(e)})
+
+
+def alias_used_before_rebinding(ctx):
+    """Resolving a name through an alias leaves nothing behind: when the target of the alias is re-bound afterwards
+    (add_type(..., replace=True)), a cstruct object that had used the alias before and one that had not give the same
+    types, sizes and values."""
+    for compiled in (True, False):
+        for used_by in ("definition", "attribute", "sizeof", "read", "nothing"):
+            ctx.evaluation(("alias-used-before-rebinding", compiled, used_by))
+            ctx.cell("alias-used-before-its-target-is-re-bound")
+            det = {"compiled": compiled, "used_by": used_by, "workload": "alias-used-before-rebinding"}
+            try:
+                def prepare(use):
+                    cs = lib.cstruct()
+                    cs.add_type("len_t", "uint8")
+                    cs.add_type("len2_t", "len_t")
+                    if use == "definition":
+                        cs.load("struct earlier { DWORD x; len2_t y; };", compiled=compiled)
+                        cs.earlier(bytes(8))
+                    elif use == "attribute":
+                        _ = (cs.DWORD, cs.len2_t, cs.resolve("DWORD"))
+                    elif use == "sizeof":
+                        from dissect.cstruct.expression import Expression as _E
+
+                        _E(cs, "sizeof(DWORD) + sizeof(len2_t)").evaluate()
+                    elif use == "read":
+                        cs.read("DWORD", bytes(8))
+                        cs.read("len2_t", bytes(8))
+                    cs.add_type("uint32", cs.uint64, replace=True)
+                    cs.add_type("len_t", cs.uint16, replace=True)
+                    cs.load("struct rec { DWORD value; uint8 tail[sizeof(DWORD)]; len2_t n; };", compiled=compiled)
+                    o = cs.rec(bytes(range(1, 40)))
+                    return (len(cs.rec), lib.stable_repr(o), o.dumps(), int(cs.read("len2_t", b"\x07\x05")), len(cs.resolve("DWORD")),
+                            cs.resolve("DWORD") is cs.uint64, cs.resolve("len2_t") is cs.uint16)
+                got, want = prepare(used_by), prepare("nothing")
+            except Exception as e:  # noqa: BLE001
+                ctx.violation("history", f"alias-rebinding-raises:{type(e).__name__}", dict(det, error=lib.exc_sig(e)))
+                continue
+            if got != want or want[0] != 18 or not want[5] or not want[6]:
+                ctx.violation("history", "types-depend-on-whether-an-alias-was-used-before-its-target-was-re-bound",
+                              dict(det, got=repr(got)[:400], want=repr(want)[:400]))
+            else:
+                ctx.event("alias_rebinding_checked")
+
+
 def run(ctx):
+    if ctx.shard == 1:
+        failed_evaluations(ctx)
+        alias_used_before_rebinding(ctx)
     if ctx.shard == 0:
         struct_cache(ctx)
         custom_types(ctx)
@@ -620,6 +725,12 @@ def replay(ctx, detail):
         return
     if detail.get("workload") == "failed-loads":
         failed_loads(ctx, 150)
+        return
+    if detail.get("workload") == "failed-evaluations":
+        failed_evaluations(ctx)
+        return
+    if detail.get("workload") == "alias-used-before-rebinding":
+        alias_used_before_rebinding(ctx)
         return
     if detail.get("workload") == "copies":
         copies(ctx, 250)
